@@ -7,7 +7,7 @@ from trie.fog import HexaryTrieFog, TrieFrontierCache
 from trie.exceptions import (PerfectVisibility, FullDirectionalVisibility, MissingTraversalNode, TraversedPartialPath)
 
 ID = "C09"
-LEAN_IMPORTS = ["PyTrie.Props.C09", "PyTrie.Props.NonVacuity"]
+LEAN_IMPORTS = ["PyTrie.Props.C09", "PyTrie.Props.NonVacuity", "PyTrie.Props.NonVacuity2"]
 THEOREMS = [
     "PyTrie.Props.C09.step_defined",
     "PyTrie.Props.C09.finds_stable",
@@ -23,6 +23,10 @@ THEOREMS = [
     "PyTrie.Props.NonVacuity.sched_done",
     "PyTrie.Props.NonVacuity.fog_wf",
     "PyTrie.Props.NonVacuity.walkMid_wf",
+    "PyTrie.Props.NonVacuity2.cwalk_finds",
+    "PyTrie.Props.NonVacuity2.cwalk_sound",
+    "PyTrie.Props.NonVacuity2.csched_done",
+    "PyTrie.Props.NonVacuity2.cMid1_hit",
 ]
 RULE = ("walks over tries built by generated histories: at every step an unexplored prefix is taken with nearest_unknown or "
         "nearest_right for a (changing) query key, traversed from the root or from a TrieFrontierCache entry (stale entries "
